@@ -377,8 +377,8 @@ def make_column_definition_41(
         if default is None:
             parts.append(uint_len(0))
         else:
-            default_values = server_charset.encode(default)
-            parts.extend([uint_len(len(default_values)), str_len(default_values)])
+            # lenenc length of the default followed by the default itself: one length-encoded string
+            parts.append(str_len(server_charset.encode(default)))
     return _concat(*parts)
 
 
